@@ -47,7 +47,7 @@ def zeroVal : Shape → DVal
   | .u32 => .u32 0
   | .v32 => .i32 0
   | .f32 => .f32 0
-  | .f16 .. | .scaled | .angle | .v16scaled _ => .flt (.fin 0)
+  | .f16 .. | .scaled | .angle | .v16scaled _ => .flt Knx.Fl.F32.zero
   | .time => .time 0 0 0 0
   | .date => .date 0 0 0
   | .strAscii | .strLatin1 => .str []
